@@ -23,7 +23,12 @@
 #include <asam_cmp/lin_payload.h>
 #include <asam_cmp/packet.h>
 #include <asam_cmp/status.h>
+#include <asam_cmp/tecmp_can_payload.h>
+#include <asam_cmp/tecmp_capture_module_payload.h>
 #include <asam_cmp/tecmp_decoder.h>
+#include <asam_cmp/tecmp_header.h>
+#include <asam_cmp/tecmp_interface_payload.h>
+#include <asam_cmp/tecmp_lin_payload.h>
 
 using namespace ASAM::CMP;
 using Bytes = std::vector<uint8_t>;
